@@ -673,6 +673,69 @@ def run_unnamed_parameters(res, c):
         res["nontrivial"].append(hash(("un", variant)) & 0xFFFFFFFFFFFF)
 
 
+def run_across_scheduler_reset(res, c):
+    """The key is (function, arguments, THREAD): a call that was created and is not yet complete is still the one every
+    further call on that thread gets after the thread's scheduler object was replaced by scheduler.reset()."""
+    import asynq
+    from asynq import asynq as A
+    from asynq.tools import DeduplicateDecorator, deduplicate
+    from .. import harness
+
+    for state, spelling, method in itertools.product((1, 2), (0, 1), (False, True)):
+        asynq.scheduler.reset()
+        DeduplicateDecorator.tasks.clear()
+        rt = harness.HarnessRT({"nodes": [], "kinds": 1})
+        runs = []
+        ctr = itertools.count()
+
+        def body(a, b=2):
+            runs.append((a, b))
+            yield harness.HItem(rt, 0, "sr%d" % next(ctr), ("sr", next(ctr)))
+            return ("v", a, b)
+
+        if method:
+            class K(object):
+                @deduplicate()
+                @A()
+                def f(self, a, b=2):
+                    return (yield from body(a, b))
+
+            f = K().f
+        else:
+            f = deduplicate()(A()(body))
+        rt.attach()
+        try:
+            t1 = f.asynq(1)
+            for _ in range(state):
+                asynq.scheduler.reset()
+            t2 = f.asynq(1) if spelling == 0 else f.asynq(a=1, b=2)
+            t3 = f.asynq(2)
+            try:
+                v2 = t2.value()
+                v3 = t3.value()
+                v1 = t1.value()
+            except BaseException as e:
+                v1 = v2 = v3 = ("raised", repr(e)[:120])
+        finally:
+            rt.detach()
+            DeduplicateDecorator.tasks.clear()
+        res["evaluations"] += 1
+        c["calls_repeated_after_the_threads_scheduler_was_replaced"] = c.get("calls_repeated_after_the_threads_scheduler_was_replaced", 0) + 1
+        probs = []
+        if t2 is not t1:
+            probs.append("the repeated call got another task")
+        if t3 is t1:
+            probs.append("a different call shared the task")
+        if (v1, v2, v3) != (("v", 1, 2), ("v", 1, 2), ("v", 2, 2)):
+            probs.append("values %r" % ((v1, v2, v3),))
+        if sorted(runs) != [(1, 2), (2, 2)]:
+            probs.append("body runs %r" % (runs,))
+        if probs and len(res["violations"]) < 8:
+            res["violations"].append({"oracle": "same-call-across-scheduler-reset", "mechanism": "same-call-across-scheduler-reset", "detail": {"resets_between_the_calls": state, "method": method, "problems": probs}, "case": {"mode": "shared_deco", "cases": [0, 1]}})
+        res["nontrivial"].append(hash(("sr", state, spelling, method)) & 0xFFFFFFFFFFFF)
+    asynq.scheduler.reset()
+
+
 def plan(tier, seed, build, scale):
     n = int((1600 if tier == "quick" else 120000) * scale)
     per = max(1, n // (8 if tier == "quick" else 64))
@@ -691,6 +754,7 @@ def run_unit(unit, progress):
         progress(0)
         run_shared_decorator(res, c)
         run_unnamed_parameters(res, c)
+        run_across_scheduler_reset(res, c)
         return res
     if unit.get("mode") == "generations":
         # "thread" is part of the key: a new thread never shares with a finished one, even when the OS re-issues
